@@ -31,16 +31,20 @@ type QTx struct {
 }
 
 type World struct {
-	adb      *account.AccountDB
-	univ     []common.Address
-	height   uint64
-	seq      uint64
-	queue    []*QTx
-	inits    map[int]Script
-	codes    map[common.Address]Script
-	out      *hx.Out
-	authUsed bool            // a queued transaction of the current block already targets authC
-	authC    *common.Address // the one contract whose script uses AUTHCALL (re-assembled before every block)
+	adb           *account.AccountDB
+	univ          []common.Address
+	height        uint64
+	seq           uint64
+	queue         []*QTx
+	inits         map[int]Script
+	codes         map[common.Address]Script
+	out           *hx.Out
+	miners        []minerRec // registered by successful MinerApply transactions
+	pendingMiners []minerRec
+	minerSeq      uint64
+	refundSeq     uint64
+	authUsed      bool            // a queued transaction of the current block already targets authC
+	authC         *common.Address // the one contract whose script uses AUTHCALL (re-assembled before every block)
 }
 
 func newAccountDB() *account.AccountDB {
@@ -69,6 +73,8 @@ func (w *World) Reset(emit bool) {
 	w.inits = map[int]Script{}
 	w.codes = map[common.Address]Script{}
 	w.authC = nil
+	w.miners = nil
+	w.pendingMiners = nil
 	if emit {
 		w.out.Emit("reset", "ok")
 		w.Univ(w.univ)
@@ -336,6 +342,16 @@ func (w *World) Exec() BlockResult {
 			w.out.Emit(q.line, "q")
 		}
 	}
+	for i, q := range w.queue {
+		if q.feat["lock"] && i < len(res.GasUsed) && st.String()[i] == 's' {
+			for _, pm := range w.pendingMiners {
+				if strings.Contains(q.tx.Data, fmt.Sprintf("%x", pm.id)) {
+					w.miners = append(w.miners, pm)
+				}
+			}
+		}
+	}
+	w.pendingMiners = nil
 	res.Statuses = st.String()
 	if res.Statuses == "" {
 		res.Statuses = "-"
